@@ -1231,26 +1231,40 @@ func (k *K) runYen(s, t int, kk int, cost float64) {
 	// number of admissible paths is moderate (Yen is quadratic in it).
 	var all []float64
 	complete := true
+	admissible := 50 // number of paths a correct Yen may have to produce
 	if !k.negArc && s >= 0 && t >= 0 && !math.IsInf(k.exp(s, t), 0) {
 		all, complete = k.g.allSimpleWeights(s, t, 200000)
 		if !complete {
 			k.c.Count("yen.skipped_too_many_paths", 1)
 			return
 		}
-		if kk < 0 {
-			n := 0
-			for _, x := range all {
-				if x <= k.exp(s, t)+cost {
-					n++
-				}
-			}
-			if n > 3000 {
-				k.c.Count("yen.skipped_unbounded_request", 1)
-				return
+		n := 0
+		for _, x := range all {
+			if x <= k.exp(s, t)+cost {
+				n++
 			}
 		}
+		if kk < 0 && n > 3000 {
+			k.c.Count("yen.skipped_unbounded_request", 1)
+			return
+		}
+		if kk >= 0 && kk < n {
+			n = kk
+		}
+		admissible = n
 	}
-	p := tryFn(func() { ps = path.YenKShortestPaths(k.b.G, kk, cost, u, v) })
+	yg := k.b.G
+	if k.b.Weight != nil && !k.negArc {
+		// (inputs with negative arcs are outside Yen's domain and not
+		// judged: no budget there.) A correct run makes at most (paths+1) * n spur searches of at most
+		// n From queries each; four times that (plus slack) is the budget.
+		yg = withBudget(k.b.G, k.b.Weight, 4*(admissible+2)*k.g.N*(k.g.N+1)+1000)
+	}
+	p := tryFn(func() { ps = path.YenKShortestPaths(yg, kk, cost, u, v) })
+	if p != nil && p.Msg == runawayMsg {
+		k.viol(routine, s, t, "does-not-terminate", q, "graph-query budget (4x the bound of a correct run) exhausted", "termination")
+		return
+	}
 	k.ev(fmt.Sprintf("%s|k=%d|cost=%g", routine, kk, cost))
 	if k.negArc {
 		if p != nil && !wantPanic(p, "negative edge weight") {
